@@ -409,10 +409,24 @@ def oracle_c06_fresh(tr):
 def oracle_c19(tr):
     if not tr.ok:
         return None
+    rotated = False
     for op, res, b0, a0, b1, a1, now, prices in walk(tr):
         if op[0] == 32 and res == "OK":
             return {"key": "fees-paid-to-foreign-account",
                     "what": f"collect_bank_fees accepted a fee ATA that is not the global fee wallet's (bank {op[1]}, token account of user {op[2]})"}
+        if op[0] == 39:
+            rotated = rotated or res == "OK"
+            continue            # the fee ATA observed from now on is another (empty) account
+        if op[0] == 40 and rotated:
+            if res == "OK":
+                return {"key": "fees-paid-to-previous-fee-wallet",
+                        "what": f"collect_bank_fees (bank {op[1]}) accepted the token account of the PREVIOUS global fee wallet after the fee admin had rotated the wallet"}
+            continue
+        if op[0] == 16 and rotated and res == "E6045":
+            return {"key": "fee-collection-refuses-current-wallet",
+                    "what": f"collect_bank_fees (bank {op[1]}) refused the canonical token account of the CURRENT global fee wallet (InvalidFeeAta) after a wallet rotation"}
+        if op[0] == 40:
+            op = [16] + list(op[1:])
         if op[0] != 16 or res != "OK":
             # fee / insurance vaults only change through collect_fees, liquidation (insurance in), bankruptcy (insurance out)
             if res == "OK":
